@@ -1,6 +1,7 @@
 import LJT.Proofs.Lossless
 import LJT.Proofs.LosslessScan
 import LJT.Proofs.Bits
+import LJT.Proofs.LosslessFull2
 /-!
 # C02 - Lossless mode reproduces every sample exactly
 
@@ -20,10 +21,15 @@ encoder on every generated case, and whose tables come from the C19-verified bui
 * `segment_roundtrip` - Huffman-coded MCUs, packed into bytes with 1-padding and 0xFF
   stuffing, decode to congruent differences (uses C19 `derived_tables_inverse`).
 
-`lossless_roundtrip_partial` below states what these give together; the splitting of the
-scan at RSTn markers and the regrouping of MCUs into per-component rows are not yet part of
-the composed theorem (they are exercised by the byte-exact correspondence and by the
-round-trip oracle on the real library).  Layout / row order / pitch independence is C10.
+`lossless_roundtrip` composes all of it: the whole scan - any number of restart intervals, MCUs
+interleaved over 1..n components, regrouped by the decoder into component rows - decodes to the
+input with its Pt low bits cleared, for every image, size, precision, predictor, restart interval
+and every set of tables under which the encoder's model succeeds.  Both ends of the theorem are
+run against the code: `llEncode` must emit the bytes libjpeg-turbo emits, and `llDecode`, run on
+those bytes, must return the samples libjpeg-turbo's decompressor returns (`llenc` ops).
+`lossless_roundtrip_partial` and `scan_entropy_roundtrip` are the two halves it is built from.
+Not in the theorem: scan layouts other than one interleaved scan (llscan ops check those on the
+real code), the marker segments around the scan (C16), and layout / row order / pitch (C10).
 -/
 namespace LJT.C02
 open LJT.LL LJT.Huff LJT.Bits
@@ -166,6 +172,36 @@ theorem scan_entropy_roundtrip (cds : List CDerived) (dds : List DDerived) (tblO
           some (segs'.map (fun seg => seg.flatMap (mcuItems 0))) ∧
       All2 (All2 (All2 Cong16)) segs' segs :=
   LJT.LL.scan_entropy_roundtrip cds dds tblOf nc htab segs hne hlen bitss henc
+
+/-- **lossless_roundtrip**: the whole lossless scan, compressor to decompressor, for every image.  For every precision
+2..16, point transform, predictor, restart interval (in MCU rows, 0 = none), number of interleaved components, image
+size `w x h >= 1x1`, every image whose samples fit the precision and every set of Huffman tables under which the
+compressor's model succeeds in coding it: the bytes `llEncode` emits - differences by `encodeDiffs` with the
+*compressor's* restart bookkeeping, interleaved MCU by MCU, cut into restart intervals, Huffman-coded, 1-padded,
+byte-stuffed and joined by RST0..RST7 - are turned back by `llDecode` - split at the markers, each interval decoded
+MCU by MCU with the *decompressor's* tables, regrouped into component rows, undifferenced with the decompressor's own
+restart bookkeeping in 16-bit wrap-around arithmetic and scaled up - into exactly the input with its `Pt` low bits
+cleared.  (`llEncode` is tied byte for byte to jcdiffct.c/jclossls.c/jclhuff.c by the `llenc` correspondence; the real
+decoder is tied by the round-trip oracle of the same ops.) -/
+theorem lossless_roundtrip (p : Params) (img : List (List (List Nat))) (nc h w : Nat)
+    (hP : p.P ≤ 16) (n1 : 1 ≤ nc) (h1 : 1 ≤ h) (w1 : 1 ≤ w)
+    (hnc : img.length = nc) (hh : ∀ rows ∈ img, rows.length = h)
+    (hw : ∀ rows ∈ img, ∀ r ∈ rows, r.length = w)
+    (hs : ∀ rows ∈ img, ∀ r ∈ rows, ∀ s ∈ r, s < 2 ^ p.P)
+    (cds : List CDerived) (dds : List DDerived) (tblOf : List Nat) (htab : TablesOK cds dds tblOf 0 nc)
+    (bitss : List (List Bool))
+    (henc : (segmentsOf p.R ((byRow (encodeDiffs p img) h).map interleaveRow)).mapM (segBits cds tblOf) = some bitss) :
+    llDecode p tblOf dds nc h w (Bits.joinRST (bitss.map Bits.segmentBytes) 0) =
+      some (img.map fun rows => rows.map fun r => r.map (cleared p.Pt)) := by
+  obtain ⟨segItems, hdec, hcong⟩ := decoded_diffs_congruent p.R nc h w h1 w1 n1 (encodeDiffs p img)
+    (encodeDiffs_shape p img nc h w h1 hnc hh hw) cds dds tblOf htab bitss henc
+  unfold llDecode
+  rw [hdec]
+  have hpart := lossless_roundtrip_partial p img w hP hw hs _ hcong
+  simp only [Option.some.injEq]
+  refine all2_map_eq _ _ (fun rows => rows.length = h) _ _ (all2_weaken ?_ hpart) hh
+  intro dss rows hr hl
+  rw [← hl]; exact hr
 
 
 -- non-vacuity: a 3x2 16-bit component alternating 0 / 65535 with PSV 7, restart every row
